@@ -141,9 +141,10 @@ theorem reserve_refill (r : Rec) (k M : Nat) (hlen : r.len ≤ r.cap) (hin : r.o
 @[simp] theorem promote_arc (r : Rec) : (promote r).arc = true := by
   unfold promote; cases h : r.arc <;> simp [h]
 
-/-- the operations that can allocate or re-record the original capacity -/
+/-- the operations that can allocate or re-record the original capacity (`unsplitLast` because of its
+fall-back to `extend_from_slice` when the halves cannot be merged) -/
 def Op.refills : Op → Bool
-  | .reserve _ | .append _ | .roundTrip => true
+  | .reserve _ | .append _ | .roundTrip | .unsplitLast _ _ => true
   | _ => false
 
 /-- every other operation leaves the allocation, the count and `orig` alone and can only shrink
@@ -163,6 +164,41 @@ theorem step_frame (r : Rec) (op : Op) (h : op.refills = false) :
   | dropPinned => exact ⟨rfl, rfl, rfl, fun a ha => List.dropLast_subset _ ha⟩
   | dropOld => simp [step]
   | splitOffTail => simp [step]
-  | unsplitLast n c => simp only [step]; split <;> simp
+  | unsplitLast n c => simp [Op.refills] at h
+
+/-! ### the four branches of `unsplitLast` -/
+
+/-- case analysis of `step r (.unsplitLast n c)`, one disjunct per branch of `BytesMut::unsplit` -/
+theorem unsplitLast_cases (r : Rec) (n c : Nat) :
+    (r.len = 0 ∧ step r (.unsplitLast n c) = { r with len := n, cap := c, parts := r.parts - 1 }) ∨
+    (r.len ≠ 0 ∧ c = 0 ∧ step r (.unsplitLast n c) = { r with parts := r.parts - 1 }) ∨
+    (r.len ≠ 0 ∧ c ≠ 0 ∧ r.len = r.cap ∧
+      step r (.unsplitLast n c) = { r with len := r.len + n, cap := r.cap + c, parts := r.parts - 1 }) ∨
+    (r.len ≠ 0 ∧ c ≠ 0 ∧ r.len ≠ r.cap ∧
+      step r (.unsplitLast n c) =
+        { reserve r n with len := (reserve r n).len + n, parts := (reserve r n).parts - 1 }) := by
+  by_cases h0 : r.len = 0
+  · left; exact ⟨h0, by simp [step, h0]⟩
+  · right
+    by_cases hc : c = 0
+    · left; exact ⟨h0, hc, by simp [step, h0, hc]⟩
+    · right
+      by_cases hf : r.len = r.cap
+      · left; exact ⟨h0, hc, hf, by simp only [step, if_neg h0, if_neg hc, if_pos hf]⟩
+      · right; exact ⟨h0, hc, hf, by simp only [step, if_neg h0, if_neg hc, if_neg hf]⟩
+
+/-- an `unsplitLast` that does not fall back to copying leaves the allocation, the count, `orig` and
+the pinned list alone -/
+theorem unsplitLast_frame (r : Rec) (n c : Nat) (h : r.len = 0 ∨ c = 0 ∨ r.len = r.cap) :
+    (step r (.unsplitLast n c)).A = r.A ∧ (step r (.unsplitLast n c)).allocs = r.allocs ∧
+      (step r (.unsplitLast n c)).orig = r.orig ∧ (step r (.unsplitLast n c)).pinned = r.pinned := by
+  rcases unsplitLast_cases r n c with ⟨_, e⟩ | ⟨_, _, e⟩ | ⟨_, _, _, e⟩ | ⟨h0, hc, hf, _⟩
+  · rw [e]; exact ⟨rfl, rfl, rfl, rfl⟩
+  · rw [e]; exact ⟨rfl, rfl, rfl, rfl⟩
+  · rw [e]; exact ⟨rfl, rfl, rfl, rfl⟩
+  · rcases h with h | h | h
+    · exact absurd h h0
+    · exact absurd h hc
+    · exact absurd h hf
 
 end BytesVerif.Recycle
